@@ -40,7 +40,7 @@ Definition lc1 := Locus 0 20 30 20 30 5 0 1 20 30 0.
 
 (* one locus of GC bin 1, two eligible background tiles, both in GC bin 0 *)
 Definition w_spill : call :=
-  Call [Chrom 40 [t00; t00; t51; t51]] [lc1] 10 10 (1, 10) (1, 2) None None 1
+  Call [Chrom 40 true [t00; t00; t51; t51]] [lc1] 10 10 (1, 10) (1, 2) None None 1
        [[1; 0]%nat; []; []].
 
 (* the hypotheses are satisfiable and the outcome is not vacuous *)
@@ -55,7 +55,7 @@ Proof. exists w_spill. vm_compute. reflexivity. Qed.
 (* in_window = out_window with a bigwig: the empty slice sums to 0 and the high-signal
    tile 0 is returned *)
 Definition w_slice : call :=
-  Call [Chrom 40 [Tile 5 0 100 1; Tile 5 0 0 1; Tile 5 0 10 1; Tile 5 0 10 1]]
+  Call [Chrom 40 true [Tile 5 0 100 1; Tile 5 0 0 1; Tile 5 0 10 1; Tile 5 0 10 1]]
        [Locus 0 20 30 20 30 5 0 1 20 30 10] 10 10 (1, 10) (1, 2) (Some (1, 2)) None 1
        [[]; [0%nat]; []].
 Lemma slice_v0_refuted :
@@ -64,7 +64,7 @@ Proof. exists w_slice. vm_compute. reflexivity. Qed.
 
 (* gc_bin_width = 0.08: a pure G/C tile falls in bin 13 of a 13-cell histogram *)
 Definition w_nbins : call :=
-  Call [Chrom 30 [Tile 10 0 0 13; Tile 5 0 0 6; Tile 5 0 0 6]]
+  Call [Chrom 30 true [Tile 10 0 0 13; Tile 5 0 0 6; Tile 5 0 0 6]]
        [Locus 0 10 20 10 20 5 0 6 10 20 0] 10 10 (1, 10) (2, 25) None None 1
        [[]; []; []; []; []; []; []; []; []; []; []; []; []; [0%nat]].
 Lemma nbins_v0_refuted :
@@ -73,7 +73,7 @@ Proof. exists w_nbins. vm_compute. reflexivity. Qed.
 
 (* max_n_perc = 0: an N-free input locus is discarded by the strict comparison *)
 Definition w_strict : call :=
-  Call [Chrom 40 [t00; t00; t51; t51]] [lc1] 10 10 (0, 1) (1, 2) None None 1
+  Call [Chrom 40 true [t00; t00; t51; t51]] [lc1] 10 10 (0, 1) (1, 2) None None 1
        [[1; 0]%nat; []; []].
 Lemma strict_v0_refuted :
   exists k, spec_ok k (run (Quirks false false false true) k) = false.
